@@ -239,6 +239,22 @@ def run(ctx):
                     "observe": {"snapshots": False, "max_names": 4}})
         cases.append({"id": "long%d" % n, "schema": schema, "ops": ops, "_code": code})
         n += 1
+    # long lists: a crate holding 300 (thorough 1500) tracks, then clear / single removal / re-adding / removal of the crate, failed at
+    # every statement - an operation that treats long lists differently (batches, a fast path) shows here
+    nlong = 300 if ctx.tier == "quick" else 1500
+    for schema in ALL_SCHEMAS:
+        obs = {"snapshots": False, "max_names": 4}
+        ops = [{"op": "create_temporary", "schema": schema}, {"op": "set_budget", "vdbe": 4 * 10 ** 9},
+               {"op": "create_root_crate", "name": FO.hx("long list"), "as": "cL"}, {"op": "create_root_crate", "name": FO.hx("other"), "as": "cO"},
+               {"op": "bulk_fill", "c": "cL", "n": nlong, "prefix": FO.hx("ll"), "keep": [0, 7, nlong - 1], "as": "bk"},
+               {"op": "add_track", "c": "cO", "t": "bk_7"}]
+        for inner in ({"op": "remove_track_from", "c": "cL", "t": "bk_7"}, {"op": "clear_tracks", "c": "cL"},
+                      {"op": "add_track", "c": "cL", "t": "bk_0"}, {"op": "remove_crate", "c": "cL"}):
+            ops.append({"op": "fault_sweep", "inner": inner, "code": codes[len(cases) % len(codes)], "max_k": 4000, "keep_going": True, "stored": True,
+                        "observe": obs})
+        cases.append({"id": "ll%d" % n, "schema": schema, "ops": ops, "_code": 13, "no_disk": True})
+        ctx.bump("long_list_fault_cases")
+        n += 1
     c0 = cases[0]
     ctx.sample({"schema": c0["schema"], "calls": [opdesc(o["inner"]) for o in c0["ops"] if o["op"] == "fault_sweep"][:14]})
     ctx.assumptions += ["an injected fault is returned instead of executing the statement, so the failed statement itself has no effect "
